@@ -10,9 +10,11 @@ From AV Require Import Base.ListSet Model.Txn Model.C18Dialect.
 (* what env.py passes to context.configure *)
 Record ocfg := mkOcfg { c_tddl : option bool;     (* transactional_ddl=None/True/False *)
                         c_per_mig : bool;         (* transaction_per_migration          *)
-                        c_conn_in_txn : bool }.   (* context.configure(connection=<live Connection>) and that connection is
+                        c_conn_in_txn : bool;     (* context.configure(connection=<live Connection>) and that connection is
                                                      already in a transaction (SQLAlchemy 2.0 autobegin); false when the
                                                      context is configured from dialect_name/url or a fresh connection *)
+                        c_tddl_env : option bool }. (* EnvironmentContext(config, script, transactional_ddl=...) keyword,
+                                                     i.e. context_opts, the other documented route for the override   *)
 
 (* MigrationContext.__init__:
      if as_sql: ...; self._in_external_transaction = False
@@ -20,9 +22,14 @@ Record ocfg := mkOcfg { c_tddl : option bool;     (* transactional_ddl=None/True
    an offline script never depends on the transaction state of the connection it borrowed the dialect from *)
 Definition init_external (as_sql conn_in_txn:bool) : bool := if as_sql then false else conn_in_txn.
 
+(* EnvironmentContext.configure: opts = self.context_opts
+                                   if transactional_ddl is not None: opts["transactional_ddl"] = transactional_ddl
+   -- the argument of configure() wins, otherwise the keyword given to EnvironmentContext stays in force *)
+Definition opts_tddl (c:ocfg) : option bool :=
+  match c_tddl c with Some b => Some b | None => c_tddl_env c end.
 (* DefaultImpl.__init__: if transactional_ddl is not None: self.transactional_ddl = transactional_ddl *)
 Definition effective_tddl (d:dialect) (c:ocfg) : bool :=
-  match c_tddl c with Some b => b | None => d_tddl d end.
+  match opts_tddl c with Some b => b | None => d_tddl d end.
 
 (* a migration function: a sequence of op.execute(...) and `with op.get_context().autocommit_block(): op.execute(...)*` *)
 Inductive item := IStmt (p:N) | IAuto (ps:list N).
